@@ -168,6 +168,8 @@ type gCall struct {
 	caller, callN int
 	callee, invN  int
 	live          bool
+	streaming     bool   // a progressive call invocation whose caller may send further chunks
+	uri           string
 }
 
 type rpcGen struct {
@@ -394,6 +396,25 @@ func (g *rpcGen) op(t *rapid.T) Op {
 		}
 		return Op{K: "unregister", S: s, Ref: genRefTo(t, "reg", g.nsess, 40)}
 	case 2:
+		if g.profile != "deterministic" && g.profile != "hostile" {
+			// next chunk of a progressive call invocation that is still open
+			var streaming []*gCall
+			for _, c := range g.calls {
+				if c.live && c.streaming {
+					streaming = append(streaming, c)
+				}
+			}
+			if len(streaming) > 0 && pct(t, 45, "chunk") {
+				c := pick(t, streaming, "whichstream")
+				op := Op{K: "call", S: c.caller, URI: c.uri, Ref: fmt.Sprintf("call:-1:%d", c.callN), Args: genArgs(t, valOpts{}), Kw: genKw(t, valOpts{})}
+				if pct(t, 60, "morechunks") {
+					op.Opts = append(op.Opts, KV{"progress", VBool(true)})
+				} else {
+					c.streaming = false
+				}
+				return op
+			}
+		}
 		s := g.pickSess(t, g.callers, "cs")
 		op := genCallOp(t, s, g.profile)
 		var live []*gReg
@@ -414,7 +435,13 @@ func (g *rpcGen) op(t *rapid.T) Op {
 				callee = r.members[r.rr%len(r.members)]
 				r.rr++
 			}
-			g.calls = append(g.calls, &gCall{caller: s, callN: g.nCalls[s], callee: callee, invN: g.nInvs[callee], live: true})
+			gc := &gCall{caller: s, callN: g.nCalls[s], callee: callee, invN: g.nInvs[callee], live: true, uri: op.URI}
+			if g.profile != "deterministic" && g.profile != "hostile" && pct(t, 10, "streamcall") {
+				// first chunk of a progressive call invocation
+				op.Opts = append(op.Opts, KV{"progress", VBool(true)})
+				gc.streaming = true
+			}
+			g.calls = append(g.calls, gc)
 			g.nInvs[callee]++
 		}
 		g.nCalls[s]++
